@@ -27,7 +27,7 @@ import time
 PROPERTY = "C13"
 LEVEL = "exploration"
 SHARDS = {"quick": 8, "thorough": 16}
-BUDGET = {"quick": 24.0, "thorough": 300.0}
+BUDGET = {"quick": 20.0, "thorough": 300.0}
 CLAUSES = (
     "alarm-once",
     "alarm-not-early",
@@ -48,8 +48,8 @@ CLAUSES = (
 REQUIRE = {
     **{f"eval:{c}": 200 for c in CLAUSES},
     "eval:exc-once": 40,
-    "enum_schedules:select": 2000,
-    "enum_schedules:zmq": 2000,
+    "enum_schedules:select": 1000,
+    "enum_schedules:zmq": 1000,
     **{f"programs:{lp}:real": 40 for lp in ("select", "zmq", "asyncio", "tornado", "twisted", "trio")},
     "programs:select:virtual": 300,
     "programs:zmq:virtual": 300,
@@ -367,6 +367,7 @@ def flush_tally(ctx, tally):
 
 
 def virtual_enumeration(ctx, tally, frac):
+    """enumerated schedules; select and zmq are interleaved so that a short budget cuts both equally"""
     from vmon import core
     from vmon.gen import c13_programs as G
 
@@ -375,58 +376,56 @@ def virtual_enumeration(ctx, tally, frac):
     splits_small = [(na, nf) for na in range(1, 5) for nf in range(0, 4) if na + nf <= 4]
     splits_5 = [(2, 3), (3, 2), (4, 1)]
     splits_big = [(3, 3), (4, 2), (4, 3)]
-    for loop in G.VIRTUAL_LOOPS:
-        units = (1000,) if loop == "select" else (1000, 400)
-        # A: every weak ordering x every single (actor, action), n <= 4 (quick: n == 4 strided), n == 5 thorough
-        for na, nf in splits_small + ([] if ctx.quick else splits_5):
-            n = na + nf
-            for ranks in G.weak_orderings(n):
-                for action in G.enum_actions(n):
-                    for order in ("reg", "rev") if nf >= 2 else ("reg",):
-                        for unit in units:
-                            idx += 1
-                            if not ctx.mine(idx):
-                                continue
-                            if ctx.quick and n == 4 and (idx // ctx.nshards) % 4:
-                                continue
-                            if not ctx.more(frac):
-                                complete = False
-                                continue
-                            prog = G.build_enum(loop, na, nf, ranks, action, order, unit)
-                            run_case(tally, prog)
-                            ctx.case(core.h64(prog), nontrivial=tally.cases[-1])
-                            tally.count(f"enum_schedules:{loop}")
-                            tally.count(f"enum_action:{action[1]}")
-        # B: idle variants x orderings (n <= 3) x no-op / raising actor
-        for na, nf in [(1, 0), (1, 1), (2, 1), (1, 2), (2, 0), (3, 0)]:
-            n = na + nf
-            for ranks in G.weak_orderings(n):
-                for iv in G.IDLE_VARIANTS:
-                    for action in [(None, "none", None), (0, "busy", None), (n - 1, "rearm", None)]:
+    variants = [("select", 1000), ("zmq", 1000), ("zmq", 400)]
+
+    def one(prog, loop, tag):
+        run_case(tally, prog)
+        ctx.case(core.h64(prog), nontrivial=tally.cases[-1])
+        tally.count(f"enum_schedules:{loop}")
+        tally.count(tag)
+
+    # B: idle variants x orderings (n <= 3) x no-op / slow / re-arming actor
+    for na, nf in [(1, 0), (1, 1), (2, 1), (1, 2), (2, 0), (3, 0)]:
+        n = na + nf
+        for ranks in G.weak_orderings(n):
+            for iv in G.IDLE_VARIANTS:
+                for action in [(None, "none", None), (0, "busy", None), (n - 1, "rearm", None)]:
+                    for loop, unit in variants[:2]:
                         idx += 1
-                        if not ctx.mine(idx) or not ctx.more(frac):
+                        if not ctx.mine(idx):
                             continue
-                        prog = G.build_enum(loop, na, nf, ranks, action, "reg", units[-1], iv)
-                        run_case(tally, prog)
-                        ctx.case(core.h64(prog), nontrivial=tally.cases[-1])
-                        tally.count(f"enum_schedules:{loop}")
-                        tally.count(f"enum_idle_variant:{iv}")
-        # C: thorough: all weak orderings of 6-7 events with no-op callbacks (pure scheduling order)
-        if not ctx.quick:
-            for na, nf in splits_big:
-                for ranks in G.weak_orderings(na + nf):
+                        one(G.build_enum(loop, na, nf, ranks, action, "reg", unit if loop == "select" else 400, iv), loop, f"enum_idle_variant:{iv}")
+    # A: every weak ordering x every single (actor, action), n <= 4 (quick: n == 4 strided), n == 5 thorough
+    for na, nf in splits_small + ([] if ctx.quick else splits_5):
+        n = na + nf
+        for ranks in G.weak_orderings(n):
+            for action in G.enum_actions(n):
+                for order in ("reg", "rev") if nf >= 2 else ("reg",):
+                    for loop, unit in variants:
+                        idx += 1
+                        if not ctx.mine(idx):
+                            continue
+                        if ctx.quick and n == 4 and (idx // ctx.nshards) % 4:
+                            continue
+                        if not ctx.more(frac):
+                            complete = False
+                            continue
+                        one(G.build_enum(loop, na, nf, ranks, action, order, unit), loop, f"enum_action:{action[1]}")
+        flush_tally(ctx, tally)
+    # C: thorough: all weak orderings of 6-7 events with no-op callbacks (pure scheduling order)
+    if not ctx.quick:
+        for na, nf in splits_big:
+            for ranks in G.weak_orderings(na + nf):
+                for loop, unit in variants[:2]:
                     idx += 1
                     if not ctx.mine(idx):
                         continue
                     if not ctx.more(frac):
                         complete = False
                         continue
-                    prog = G.build_enum(loop, na, nf, ranks, (None, "none", None), "rev" if idx % 2 else "reg", units[-1])
-                    run_case(tally, prog)
-                    ctx.case(core.h64(prog), nontrivial=tally.cases[-1])
-                    tally.count(f"enum_schedules:{loop}")
-                    tally.count("enum_schedules_6_7_events")
-        flush_tally(ctx, tally)
+                    one(G.build_enum(loop, na, nf, ranks, (None, "none", None), "rev" if idx % 2 else "reg", unit if loop == "select" else 400), loop, "enum_schedules_6_7_events")
+            flush_tally(ctx, tally)
+    flush_tally(ctx, tally)
     ctx.extra["virtual_enumeration_complete_in_budget"] = complete
 
 
@@ -468,7 +467,7 @@ def run(ctx):
             workers.append((loop, *start_worker(ctx, loop, wbudget, maxn, tmpdir)))
         watch_mechanisms(G.VIRTUAL_LOOPS)
         tally = Tally()
-        virtual_enumeration(ctx, tally, 0.55)
+        virtual_enumeration(ctx, tally, 0.70)
         virtual_random(ctx, tally, 0.80, ctx.pick(20000, 400000))
         reach.flush(ctx)
         deadline = ctx.t0 + ctx.budget + 90
